@@ -128,6 +128,8 @@ def _resolve_core(s, tenv):
         return TD('string')
     if s in ('std::stringstream', 'stringstream'):
         return TD('sstream')
+    if s in ('std::mutex', 'mutex', 'std::recursive_mutex'):
+        return TD('mutex')
     s = re.sub(r'^SplineTrajectory::', '', s)
     if s in ('Eigen::Matrix2d', 'Matrix2d'):
         return TD('mat', R=2, C=2)
